@@ -148,20 +148,31 @@ impl<'a> PrettyPrinter<'a> {
     ) -> ArenaDoc<'a> {
         // An underscore directly after a hashed identifier would become part of it: `#x _ y` is not `#x_y`.
         let mut after_hashed_expr = false;
+        // A backslash (line break) as the base must not touch the operator either: `\_` and `\^` are escapes.
+        let mut after_backslash = false;
         self.convert_flow_like(ctx, math_attach.to_untyped(), |ctx, node| {
-            if node.kind() == SyntaxKind::Underscore && after_hashed_expr {
+            if node.kind() == SyntaxKind::Underscore && after_hashed_expr
+                || matches!(node.kind(), SyntaxKind::Underscore | SyntaxKind::Hat) && after_backslash
+            {
                 after_hashed_expr = false;
+                after_backslash = false;
                 FlowItem::new(self.convert_trivia_untyped(node), true, false)
             } else if let Some(expr) = node.cast::<Expr>() {
                 // The expression after a hash is converted in code mode.
                 after_hashed_expr = ctx.mode == Mode::Code
                     && (node.clone().into_text()).ends_with(typst_syntax::is_id_continue);
+                after_backslash = node.kind() == SyntaxKind::Linebreak;
                 // The blank is only printed before an item that asks for one, i.e. the underscore.
-                FlowItem::new(self.convert_expr(ctx, expr), false, after_hashed_expr)
+                FlowItem::new(
+                    self.convert_expr(ctx, expr),
+                    false,
+                    after_hashed_expr || after_backslash,
+                )
             } else if node.kind() == SyntaxKind::Space {
                 FlowItem::none()
             } else {
                 after_hashed_expr = false;
+                after_backslash = false;
                 FlowItem::tight(self.convert_trivia_untyped(node))
             }
         })
